@@ -8,6 +8,7 @@ api calc  <world> R <J>                 -> OK <J> | ERR
 api trace <world> R <J>                 -> OK E <J> Q <s…>* T (<key> <J>)* | ERR
 api seq   C|T <world> R <J> (;; C|T <world> R <J>)*   -> <answer> (;; <answer>)*
 api yaml  <world> Y <test> (;; <world> Y <test>)*      -> PASS|FAIL (PASS|FAIL)*
+api near  <type> <val>* ; <exp>|[ <exp>* ] a <p/q|~> r <p/q|~>   -> PASS|FAIL   (assert_near called directly)
 api phist <ord:val,…|-> <probe,…>       -> <ord:val,…> | <val,…>       (served map ascending; API reading at each probe)
 api vforms <ord,…|-> <end|-> <probe,…>  -> <ord:F|n,…> | <start|-,…>  (served formulas; the one in force at each probe)
 api params <J>                          -> <id-hex,…>                   (ids listed by /parameters, sorted)
@@ -30,7 +31,8 @@ S <singular>      P <plural>            keys of simulation.populations / known p
 ```
 `<val>`: `i<int> | f<p/q> | bT | bF | s<hex> | d<YYYY-MM-DD> | e<hex name>`.
 
-`<test>`: `p<hex>|p~` (period) `a <margins>` `r <margins>` `o <Y>|o~`;
+`<test>`: `p<hex>|p~` (period) `a <margins>` `r <margins>` [`N <var>* ;`] [`G <var>* ;`] `o <Y>|o~`
+(`N` = option only_variables, `G` = option ignore_variables; a `seq` block `B` is a body that is not JSON);
 `<margins>`: `~` (absent) | `d<p/q>` (a scalar) | `{ (k<var> <p/q>|~)* }`;
 `<Y>`: `{ (k<hex> <Y>)* } | [ <exp>* ] | <exp>`; `<exp>`: `i f b s d` tokens as above.
 -/
@@ -275,6 +277,7 @@ def answerSeqBlock (toks : List String) : Option String :=
   match toks with
   | "C" :: r => (parseRequest r).map fun (w, j) => answerCalc w j
   | "T" :: r => (parseRequest r).map fun (w, j) => answerTrace w j
+  | ["B"] => some "ERR"            -- a body that is not JSON: no situation, an error answer
   | _ => none
 
 /-! ### YAML tests -/
@@ -349,6 +352,28 @@ def parseMargins : List String → Option (Margins × List String)
       | 'd' :: r => (apiRat? (String.ofList r)).map fun q => (⟨some (some q), []⟩, rest)
       | _ => none
 
+/-- options `N <var>* ;` (only_variables) and `G <var>* ;` (ignore_variables), then the output -/
+def parseTestTail : Nat → List String → YTest → Option YTest
+  | 0, _, _ => none
+  | f + 1, toks, t =>
+    match toks with
+    | ["o~"] => some { t with output := none }
+    | "o" :: r3 =>
+      match parseY (r3.length + 1) r3 with
+      | some (Y.map kvs, []) => some { t with output := some kvs }
+      | _ => none
+    | "N" :: r =>
+      let (body, r') := splitSemi r
+      match body.mapM apiStr? with
+      | some vs => parseTestTail f r' { t with only := some vs }
+      | none => none
+    | "G" :: r =>
+      let (body, r') := splitSemi r
+      match body.mapM apiStr? with
+      | some vs => parseTestTail f r' { t with ignore := some vs }
+      | none => none
+    | _ => none
+
 def parseTest (toks : List String) : Option YTest :=
   match toks with
   | ptok :: "a" :: r =>
@@ -360,14 +385,31 @@ def parseTest (toks : List String) : Option YTest :=
     match per?, parseMargins r with
     | some per, some (am, "r" :: r2) =>
       match parseMargins r2 with
-      | some (rm, ["o~"]) => some ⟨per, am, rm, none⟩
-      | some (rm, "o" :: r3) =>
-        match parseY (r3.length + 1) r3 with
-        | some (Y.map kvs, []) => some ⟨per, am, rm, some kvs⟩
-        | _ => none
-      | _ => none
+      | some (rm, r3) => parseTestTail (r3.length + 1) r3 { period := per, absM := am, relM := rm, output := none }
+      | none => none
     | _, _ => none
   | _ => none
+
+/-- `api near <type> <val>* ; <target> a <margin> r <margin>`: a direct call of `assert_near` -/
+def answerNear (toks : List String) : Option String :=
+  match toks with
+  | ty :: r =>
+    let (body, r') := splitSemi r
+    match apiVType? ty, body.mapM apiVal? with
+    | some ty, some vs =>
+      match parseY (r'.length + 1) r' with
+      | some (y, ["a", a, "r", rr]) =>
+        let m? (t : String) : Option (Option Rat) := if t = "~" then some none else (apiRat? t).map some
+        let tg? : Option Target := match y with
+          | .leaf e => some (.scalar e)
+          | .list es => some (.list es)
+          | .map _ => none
+        match tg?, m? a, m? rr with
+        | some tg, some a, some rr => some (if assertNear ty vs tg a rr then "PASS" else "FAIL")
+        | _, _, _ => none
+      | _ => none
+    | _, _ => none
+  | [] => none
 
 def answerYamlBlock (toks : List String) : Option String :=
   match parseWorld (toks.length + 1) toks {} with
@@ -417,6 +459,10 @@ def handleApi (args : List String) : String :=
   | "yaml" :: r =>
     match (splitBlocks r).mapM answerYamlBlock with
     | some as => " ".intercalate as
+    | none => "BAD"
+  | "near" :: r =>
+    match answerNear r with
+    | some a => a
     | none => "BAD"
   | ["phist", hist, probes] =>
     match (apiList hist).mapM apiEntry?, (apiList probes).mapM String.toInt? with
